@@ -206,6 +206,13 @@ Proof.
     replace (learn [] init_resp) with [0] by reflexivity. cbn [andb]. apply run_ok.
 Qed.
 
+(* a turn that emits and THEN fails is the failed turn: the Emit before the failure changes nothing *)
+Lemma emit_then_fail prod t t' f x :
+  t_act t = AEmitErr f -> t_act t' = AErr f ->
+  turn prod t x = turn prod t' x /\ act_ok (t_act t) = false /\ act_fin (t_act t) = false
+  /\ turn prod t x = TRErr (FExc (C04.exc_type f) (turn_exc_msg f) [] []).
+Proof. intros A B. unfold turn. rewrite A, B. repeat split; reflexivity. Qed.
+
 (* ---- readable one-request theorems, for ANY set of cursors minted so far --------- *)
 Lemma ok_turn leaks i minted o p :
   gate i minted o = VAccept p -> cancelled o = false -> i_prod i = false -> act_ok (t_act (turn_at i p)) = true ->
@@ -458,3 +465,27 @@ Lemma late_log_example :
         /\ r_frames r = [FData 1 [6%Z] []; FLog (str "INFO") (str "after-emit") [] []] /\ r_curs r = [[VCur 1]; []])
   /\ spec_ok late_witness (match model late_witness with r0 :: r1 :: rest => r0 :: cursor_on_log r1 :: rest | l => l end) = false.
 Proof. split; [now vm_compute|]. split; [eexists; split; [reflexivity|split; reflexivity]|now vm_compute]. Qed.
+
+(* a turn that emits its data batch and then PANICS: one EXCEPTION batch, no cursor, nothing minted,
+   on the exchange route and on the producer route; the same cursor presented again fails the same way *)
+Definition emit_panic_witness (prod : bool) : input :=
+  {| i_turns := [ {| t_logs := []; t_act := AEmitErr (C04.EPanic (str "kaboom")); t_value := 7; t_meta := []; t_peek := false;
+                     t_late := [ C04.Build_logmsg (str "INFO") (str "after-emit") [] ] |} ];
+     i_cancel := CNone; i_cache := true;
+     i_ops := [ {| o_meta := [(c16_meta_stream_state, VCur 0); (c16_meta_call_state, VCall)]; o_body := BData [5%Z] |};
+                {| o_meta := [(c16_meta_stream_state, VCur 0); (c16_meta_call_state, VCall)]; o_body := BData [6%Z] |};
+                {| o_meta := [(c16_meta_stream_state, VCur 1); (c16_meta_call_state, VCall)]; o_body := BData [6%Z] |} ];
+     i_prod := prod |}.
+Lemma emit_panic_example :
+  (exists r1 r2 r3, model (emit_panic_witness false) = [init_resp; r1; r2; r3]
+     /\ r_frames r1 = [FExc exc_runtime_error (C04.rpc_error_text exc_runtime_error (str "kaboom")) [] []]
+     /\ r_errhdr r1 = true /\ no_cursor r1 = true /\ r_frames r2 = r_frames r1 /\ no_cursor r2 = true
+     /\ r_status r3 = 400%Z)
+  /\ (exists r0 r1, model (emit_panic_witness true) = [r0; r1; r1; r1]
+       /\ r_frames r0 = [FExc exc_runtime_error (C04.rpc_error_text exc_runtime_error (str "kaboom")) [] []]
+       /\ no_cursor r0 = true /\ r_hascall r0 = false /\ r_status r1 = 400%Z).
+Proof.
+  split.
+  - eexists; eexists; eexists. split; [reflexivity|]. repeat split; reflexivity.
+  - eexists; eexists. split; [reflexivity|]. repeat split; reflexivity.
+Qed.
